@@ -26,6 +26,33 @@ Definition lord_from (logs : list N) (l : list pin) : list pin :=
 Definition ord_of (after : pinset) (c : N) : list N -> list N :=
   ord_from (match aget c after with Some p => p_allocs p | None => [] end).
 
+(* the LogUnpin list of one StateSync run is a concatenation of groups: [h] for an ordinary pin, links ++ [ref; h; h] for a
+   meta pin (unpinClusterDag, then Unpin itself). Reading the groups back gives the order in which the pins were processed. *)
+Fixpoint prefix_eqb (g l : list N) : bool :=
+  match g, l with
+  | [], _ => true
+  | x :: g', y :: l' => (x =? y)%N && prefix_eqb g' l'
+  | _ :: _, [] => false end.
+Definition meta_groups (ls : list (N * list N)) (st : pinset) : list (N * list N) :=
+  flat_map (fun kx => let x := snd kx in
+     if ptype_eqb (p_ty x) MetaT then
+       match p_ref x with
+       | Some r => match aget r ls with Some l => [(fst kx, List.rev l ++ [r; fst kx; fst kx])] | None => [] end
+       | None => [] end
+     else []) st.
+Fixpoint decode_sync (fuel : nat) (groups : list (N * list N)) (logs : list N) : list N :=
+  match fuel with
+  | O => []
+  | S fu =>
+      match logs with
+      | [] => []
+      | k :: rest =>
+          match find (fun g => prefix_eqb (snd g) logs) groups with
+          | Some g => fst g :: decode_sync fu groups (skipn (length (snd g)) logs)
+          | None => k :: decode_sync fu groups rest end
+      end
+  end.
+
 Definition count_occ_N (x : N) (l : list N) : nat := length (filter (N.eqb x) l).
 
 (* ---- model = implementation, one peer's run ---- *)
@@ -42,8 +69,11 @@ Definition run_eqb (dmin dmax : Z) (rv : bool) (hp hc : N -> N) (members : list 
       let r := vacate pc e (ord_of st') (lord_from logs) st f in
       st_eqb (fst r) st' && list_eqb N.eqb (snd r) logs
   | _ =>
-      let r := state_sync pc e (lord_from logs) hp hc self members trusted st in
-      st_eqb (fst r) st' && list_eqb N.eqb (snd r) logs
+      (* some listing order reproduces the observation: the decoded one, or the plain log order *)
+      existsb (fun order =>
+                 let r := state_sync pc e (lord_from order) hp hc self members trusted st in
+                 st_eqb (fst r) st' && list_eqb N.eqb (snd r) logs)
+              [decode_sync (S (length logs)) (meta_groups (e_links e) st) logs; logs; List.rev logs]
   end.
 
 Fixpoint runs_eqb dmin dmax rv hp hc members trusted e kind f (st : pinset) (steps : list astep) : bool :=
@@ -101,7 +131,8 @@ Definition repin_bad (now : Z) (rv : bool) (ms : list metric) (all_trusted all_e
         let hcount := healthy_count now i (p_allocs x) in
         (if all_trusted then Nat.leb nlog 1 else true)
         && forallb (fun s => Nat.leb (count_occ_N c (step_logs s)) 1) steps
-        && (if negb ((0 <? o_rmin o) && (o_rmin o <=? o_rmax o)) || expired_at now x || ptype_eqb (p_ty x) MetaT then true
+        && (if negb ((0 <? o_rmin o) && (o_rmin o <=? o_rmax o)) || expired_at now x || ptype_eqb (p_ty x) MetaT
+               || negb (nodupb (p_allocs x)) then true        (* outside the premise: factors, expiry, duplicate holders *)
             else if (o_rmin o <=? hcount) then (if hcount <=? o_rmax o then entry_same st0 stF c else true)
             else if reachable now i <? o_rmin o then entry_same st0 stF c
             else if negb all_eligible then true
